@@ -50,6 +50,7 @@ func (obj *LogTransformEstimator) Clone() *LogTransformEstimator {
   r := LogTransformEstimator{}
   r.ScalarBatchEstimator = obj.ScalarBatchEstimator.CloneScalarBatchEstimator()
   r.c = obj.c
+  r.x = obj.x
   return &r
 }
 
